@@ -10,7 +10,7 @@ PROPS = {
     "C01": {
         "lean": ["NB.Props.C01"],
         "gens": ["c01"],
-        "profiles": ["release"],
+        "profiles": ["release", "debug"],
         "trusted": ["_addcarry_u64/_subborrow_u64 = adc/sbb on Nat digits (NB.adc, NB.sbb)",
                     "asm block routine modelled as a chained adc/sbb over the first w*(len/d) digits (w from the generated instruction list, d from `size /= d`)"],
         "assumptions": COMMON_ASSUME,
@@ -22,7 +22,7 @@ PROPS = {
 PROPS["C15"] = {
     "lean": ["NB.Props.C15"],
     "gens": ["c15"],
-    "profiles": ["release"],
+    "profiles": ["release", "debug"],
     "special": special.c15_special,
     "trusted": ["mini x86 semantics NB.Model.Asm (adc/sbb/inc/dec/jnz/setc/clc on 64-bit registers, two bounded memories)",
                 "tools/extract.py translation of the asm! templates into NB.Gen.AsmProg",
@@ -37,7 +37,7 @@ PROPS["C15"] = {
 PROPS["C16"] = {
     "lean": ["NB.Props.C16"],
     "gens": ["c16"],
-    "profiles": ["release"],
+    "profiles": ["release", "debug"],
     "special": special.c16_special,
     "trusted": ["cargo/rustc as the judge of 'this configuration compiles'",
                 "the harness's feature plumbing (harness/Cargo.toml features std/rand/serde forward to num-bigint)"],
@@ -63,7 +63,7 @@ PROPS["C05"] = {
 PROPS["C09"] = {
     "lean": ["NB.Props.C09"],
     "gens": ["c09"],
-    "profiles": ["release"],
+    "profiles": ["release", "debug"],
     "trusted": ["u8/u32/u64 primitive operations (<<, >>, |, &, !, wrapping_add, `as` truncation) = the Nat operations with explicit `% 2^width` used in NB.Model.Bytes / NB.Model.Iter",
                 "slice::chunks, slice::Iter<u64> (U64Digits), Iterator::nth default (advance_by + next), Iterator::collect = repeated next: modelled from their std semantics",
                 "Mathlib Nat.digits / Nat.ofDigits as the definition of positional digits"],
@@ -75,7 +75,7 @@ PROPS["C09"] = {
 PROPS["C17"] = {
     "lean": ["NB.Props.C17"],
     "gens": ["c17"],
-    "profiles": ["release"],
+    "profiles": ["release", "debug"],
     "trusted": ["the serde data model: a Serializer is abstracted to the record of serialize_seq(len)/serialize_element/serialize_i8 calls, a Deserializer to a replayed token list with a size hint; serde's own impls for u32, i8 (range check), tuples and slices",
                 "Mathlib Nat.digits / Nat.ofDigits as the definition of positional digits"],
     "assumptions": COMMON_ASSUME,
@@ -86,7 +86,7 @@ PROPS["C17"] = {
 PROPS["C10"] = {
     "lean": ["NB.Props.C10", "NB.Props.C10D"],
     "gens": ["c10"],
-    "profiles": ["release"],
+    "profiles": ["release", "debug"],
     "special": lambda ctx: __import__("c10").special(ctx),
     "trusted": ["layering of the + - * / % scalar forms is PROVED, not trusted: NB.Model.ScalarD re-states every leaf on digit vectors through the digit-level add/sub/mul/div/convert/cmp models and NB.Props.C10D proves it equal to the value-level leaf (dUScalarForm_refines, dIScalarForm_refines, dRemAssignScalar_spec); the driver's model column for these forms is the digit-level model. Still value-level (Nat/Int arithmetic for the BigUint operators): scalar shifts, Pow, and the big-by-big items of Sum/Product",
                 "primitive integer semantics: `as` casts wrap modulo 2^N, wrapping_neg, unsigned_abs, `%` on primitives truncates (NB.castTo, NB.wrappingNeg, Int.tmod)",
@@ -130,7 +130,7 @@ PROPS["C06"] = {
 PROPS["C08"] = {
         "lean": ["NB.Props.C08"],
         "gens": ["c08"],
-        "profiles": ["release"],
+        "profiles": ["release", "debug"],
         "trusted": ["u64 as f32/f64 = round-to-nearest-even (NB.Conv.castU64); 2.0.powi(e) exact or +inf; multiplying a normal float by a power of two only moves the exponent or overflows to +inf (NB.Conv.fmulPow2)",
                     "f64::trunc, integer_decode_f64 (num-traits 0.2.19), f64::from(f32) modelled on bit patterns (NB.Conv.truncBits, integerDecode, f32ToF64)",
                     "num-traits 0.2.19 ToPrimitive/FromPrimitive defaults and impl_to_primitive_* macros modelled from their source (NB.Conv.primTo)",
@@ -143,7 +143,7 @@ PROPS["C08"] = {
 PROPS["C03"] = {
         "lean": ["NB.Props.C03"],
         "gens": ["c03"],
-        "profiles": ["release"],
+        "profiles": ["release", "debug"],
         "trusted": ["x86 `div` instruction = exact 128/64 division when hi < divisor, #DE otherwise (NB.divWide)",
                     "u64::leading_zeros = 64 - bit length (NB.leadingZeros); u128 temporaries modelled as Nat with explicit wrap checks",
                     "BigUint::to_u32 / BigInt::to_u32 / to_i32 (fast path of Rem) modelled from num-traits defaults (NB.toU32, BigInt.toU32, BigInt.toI32Abs)"],
@@ -215,7 +215,7 @@ PROPS["C13"] = {
 PROPS["C02"] = {
     "lean": ["NB.Props.C02"],
     "gens": ["c02"],
-    "profiles": ["release"],
+    "profiles": ["release", "debug"],
     "trusted": ["primitive u64/u128 arithmetic of mac_with_carry / mul_with_carry = Nat arithmetic (absence of u128 overflow is proved: mac_with_carry_no_overflow)",
                 "Toom-3 intermediate BigInts are modelled as Int values: BigInt + - <<1 *2 are the mathematical operations (justified by C01), /3 = Int.tdiv, >>1 = floor; the five point products go through the model's own multiplication",
                 "u64::is_power_of_two / trailing_zeros are modelled by their mathematical definitions"],
@@ -227,7 +227,7 @@ PROPS["C02"] = {
 PROPS["C20"] = {
     "lean": ["NB.Props.C20"],
     "gens": ["c20"],
-    "profiles": ["release"],
+    "profiles": ["release", "debug"],
     "special": lambda ctx: __import__("c20").special(ctx),
     "trusted": ["the work unit is the hook statement crate::verif::work(b.len()) in mac_digit (after the c == 0 early return); NB.Model.Cost mirrors the dispatch of mac3 and is compared for equality with the real counter",
                 "the nominal recurrence W (NB.Cost.W) is my formalisation of 'every sub-product at its maximal length'; its relation to the real count (W >= work) is measured, not proved"],
